@@ -88,6 +88,10 @@ pub struct Sim {
     pending_starve: bool,
     had_restart: bool,
     had_crash: bool,
+    /// probes on which this run already deviated in a way that only speaks for OTHER properties
+    /// than the one under check: they are not looked at again (the run goes on)
+    masked: BTreeSet<String>,
+    other_finding: Option<Finding>,
     sig_acc: u64,
     /// what kind of disturbance preceded (for attribution of unexpected errors)
     disturbed: Option<&'static str>,
@@ -128,6 +132,8 @@ impl Sim {
             pending_starve: false,
             had_restart: false,
             had_crash: false,
+            masked: BTreeSet::new(),
+            other_finding: None,
             sig_acc: 0xcbf2_9ce4_8422_2325,
             disturbed: None,
             verbose: false,
@@ -150,6 +156,32 @@ impl Sim {
 
     fn finding(&self, i: usize, clause: &str, props: &[&'static str], detail: String) -> Finding {
         Finding { clause: clause.to_string(), props: props.to_vec(), detail, op_index: i }
+    }
+
+    /// A probe-based finding: report it if it speaks for the property under check; otherwise
+    /// remember it, stop looking at the probes involved and let the run go on, so that a
+    /// deviation that only concerns another property does not hide what this check is about.
+    fn settle(&mut self, f: Finding, keys: Vec<String>) -> Option<Finding> {
+        let target = self.cfg.prop.clone();
+        let is_prop = target.len() == 3 && target.starts_with('C');
+        if !is_prop || f.props.is_empty() || f.props.iter().any(|p| *p == target) || self.masked.len() > 400 {
+            return Some(f);
+        }
+        for k in keys {
+            let _ = self.masked.insert(k);
+        }
+        self.stats.inc("masked/other_property_clause");
+        if self.other_finding.is_none() {
+            self.other_finding = Some(f);
+        }
+        None
+    }
+
+    fn unmasked(&self, diffs: Vec<(String, String, String)>) -> Vec<(String, String, String)> {
+        if self.masked.is_empty() {
+            return diffs;
+        }
+        diffs.into_iter().filter(|(k, _, _)| !self.masked.contains(k)).collect()
     }
 
     fn disturb(&mut self, what: &'static str) {
@@ -478,6 +510,10 @@ impl Sim {
         self.finish();
         pocket_db::verif::install(None);
         let _ = fs::remove_dir_all(&self.scratch);
+        if finding.is_none() {
+            // nothing about the property under check; report what the run saw about others
+            finding = self.other_finding.take();
+        }
         if let Some(f) = &finding {
             self.log.push(format!("FINDING at op {}: {} {:?} {}", f.op_index, f.clause, f.props, f.detail));
         }
@@ -543,20 +579,41 @@ impl Sim {
         let real = self.observe();
         let exp = self.expected();
         let mut result = None;
-        let diffs = obs::all_diffs(&exp, &real);
+        let diffs = self.unmasked(obs::all_diffs(&exp, &real));
         if !diffs.is_empty() {
-            let (b, clause, props) = self.attribute_all(&diffs, ctx);
+            let (b, clause, mut props) = self.attribute_all(&diffs, ctx);
+            if self.cfg.mode == Mode::Crash && !props.contains(&"C13") {
+                // in crash runs every completed call is also what a reopen must reflect
+                props.push("C13");
+            }
             let (k, want, got) = &diffs[b];
-            result = Some(self.finding(
+            let f = self.finding(
                 i,
                 &clause,
                 &props,
                 format!("after {}: probe {} shows {} but the model requires {} ({} probes differ)", ctx.desc, shorten_key(k), got, want, diffs.len()),
-            ));
+            );
+            let keys: Vec<String> = diffs.iter().map(|(k, _, _)| k.clone()).collect();
+            result = self.settle(f, keys);
         }
         self.log.push(format!("#{i} obs {:016x}", hash_obs(&real)));
         self.last_obs = Some(real);
         result
+    }
+
+    /// `last_obs` against the model, with masking and settling
+    fn model_agrees(&mut self, i: usize, ctx: &OpCtx) -> Option<Finding> {
+        let exp = self.expected();
+        let real = self.last_obs.clone().unwrap_or_default();
+        let diffs = self.unmasked(obs::all_diffs(&exp, &real));
+        if diffs.is_empty() {
+            return None;
+        }
+        let (b, clause, props) = self.attribute_all(&diffs, ctx);
+        let (k, want, got) = &diffs[b];
+        let f = self.finding(i, &clause, &props, format!("after {}: probe {} shows {} but the model requires {} ({} probes differ)", ctx.desc, shorten_key(k), got, want, diffs.len()));
+        let keys: Vec<String> = diffs.iter().map(|(k, _, _)| k.clone()).collect();
+        self.settle(f, keys)
     }
 
     /// Attribute a set of differing probes: the reported probe is the most specific one
@@ -1038,33 +1095,39 @@ impl Sim {
             let before = self.last_obs.clone();
             let after = self.observe();
             if let Some(before) = before {
-                let diffs = common(obs::diff_all(&before, &after, &[]));
-                if let Some((k, a, b)) = diffs.first() {
-                    self.cleanup_snaps(&snaps);
-                    let mut props = vec!["C12"];
-                    if matches!(out, StoreOutcome::InvalidDelete) {
+                let diffs = self.unmasked(common(obs::diff_all(&before, &after, &[])));
+                if !diffs.is_empty() {
+                    let ctx = OpCtx { kind: CtxKind::Store, event: Some(e.clone()), desc: ctx_desc.clone(), also };
+                    let (bi, _, mut props) = self.attribute_all(&diffs, &ctx);
+                    props.retain(|p| *p != "C12");
+                    props.insert(0, "C12");
+                    if matches!(out, StoreOutcome::InvalidDelete) && !props.contains(&"C10") {
                         props.push("C10");
                     }
-                    if matches!(out, StoreOutcome::Replaced) {
+                    if matches!(out, StoreOutcome::Replaced) && !props.contains(&"C09") {
                         props.push("C09");
                     }
-                    return Some(self.finding(
+                    let (k, a, b) = &diffs[bi];
+                    let f = self.finding(
                         i,
                         "failed-store-changed-state",
                         &props,
-                        format!("{ctx_desc} returned an error, yet probe {} changed: {} -> {}", shorten_key(k), a, b),
-                    ));
+                        format!("{ctx_desc} returned an error, yet probe {} changed: {} -> {} ({} probes differ)", shorten_key(k), a, b, diffs.len()),
+                    );
+                    let keys: Vec<String> = diffs.iter().map(|(k, _, _)| k.clone()).collect();
+                    if let Some(f) = self.settle(f, keys) {
+                        self.cleanup_snaps(&snaps);
+                        return Some(f);
+                    }
                 }
             }
             self.stats.inc("probe/failed_store_state_compared");
             self.last_obs = Some(after);
             // and the state still agrees with the model
-            let exp = self.expected();
-            if let Some((k, want, got)) = obs::first_diff(&exp, self.last_obs.as_ref().unwrap()) {
+            let ctx = OpCtx { kind: CtxKind::Store, event: Some(e.clone()), desc: ctx_desc.clone(), also };
+            if let Some(f) = self.model_agrees(i, &ctx) {
                 self.cleanup_snaps(&snaps);
-                let ctx = OpCtx { kind: CtxKind::Store, event: Some(e.clone()), desc: ctx_desc.clone(), also };
-                let (clause, props) = self.attribute(k, want, got, &ctx);
-                return Some(self.finding(i, &clause, &props, format!("after {ctx_desc}: probe {} shows {} but the model requires {}", shorten_key(k), got, want)));
+                return Some(f);
             }
         } else {
             let ctx = OpCtx { kind: CtxKind::Store, event: Some(e.clone()), desc: ctx_desc.clone(), also };
@@ -1394,26 +1457,28 @@ impl Sim {
         self.log.push(format!("#{i} reopen {:?}", kind));
         self.sig_mix(&format!("reopen:{:?}", kind));
         let after = self.observe();
-        let diffs = obs::diff_all(&before, &after, &[]);
+        let diffs = self.unmasked(obs::diff_all(&before, &after, &[]));
         if !diffs.is_empty() {
             let ctx = OpCtx { kind: CtxKind::Restart, event: None, desc: format!("reopen ({:?})", kind), also: &[] };
             let (bi, clause, props) = self.attribute_all(&diffs, &ctx);
             let (k, a, b) = &diffs[bi];
-            return Some(self.finding(
+            let f = self.finding(
                 i,
                 &format!("reopen-changed-{clause}"),
                 &props,
                 format!("reopen ({:?}) changed probe {}: {} -> {}", kind, shorten_key(k), a, b),
-            ));
+            );
+            let keys: Vec<String> = diffs.iter().map(|(k, _, _)| k.clone()).collect();
+            if let Some(f) = self.settle(f, keys) {
+                return Some(f);
+            }
         }
         self.stats.inc("probe/readback_after_restart");
         self.last_obs = Some(after);
         // and still what the model says
-        let exp = self.expected();
-        if let Some((k, want, got)) = obs::first_diff(&exp, self.last_obs.as_ref().unwrap()) {
-            let ctx = OpCtx { kind: CtxKind::Restart, event: None, desc: format!("reopen ({:?})", kind), also: &[] };
-            let (clause, props) = self.attribute(k, want, got, &ctx);
-            return Some(self.finding(i, &clause, &props, format!("after reopen: probe {} shows {} but the model requires {}", shorten_key(k), got, want)));
+        let ctx = OpCtx { kind: CtxKind::Restart, event: None, desc: format!("reopen ({:?})", kind), also: &[] };
+        if let Some(f) = self.model_agrees(i, &ctx) {
+            return Some(f);
         }
         self.install_blocker();
         None
@@ -1442,7 +1507,7 @@ impl Sim {
         // known finding: address markers whose d value is longer than 182 bytes are re-cut
         let long: Vec<AddrKey> = self.model.deleted_addrs.keys().filter(|a| a.d.len() > 182).cloned().collect();
         let after = self.observe();
-        let mut diffs = obs::diff_all(&before_cmp, &after, &["count/tc", "count/atc", "count/ktc", "count/general"]);
+        let mut diffs = self.unmasked(obs::diff_all(&before_cmp, &after, &["count/tc", "count/atc", "count/ktc", "count/general"]));
         if !long.is_empty() {
             let sig = "rebuild-recuts-long-d-marker";
             let affected: Vec<String> = long.iter().map(|a| format!("deladdr/{}/{}/{}", a.kind, hex(&a.pk), hex(&a.d))).collect();
@@ -1488,7 +1553,11 @@ impl Sim {
             let ctx = OpCtx { kind: CtxKind::Restart, event: None, desc: "rebuild".into(), also: &[] };
             let (bi, clause, props) = self.attribute_all(&diffs, &ctx);
             let (k, a, b) = &diffs[bi];
-            return Some(self.finding(i, &format!("rebuild-changed-{clause}"), &props, format!("rebuild changed probe {}: {} -> {}", shorten_key(k), a, b)));
+            let keys: Vec<String> = diffs.iter().map(|(k, _, _)| k.clone()).collect();
+            let f = self.finding(i, &format!("rebuild-changed-{clause}"), &props, format!("rebuild changed probe {}: {} -> {}", shorten_key(k), a, b));
+            if let Some(f) = self.settle(f, keys) {
+                return Some(f);
+            }
         }
         // no bytes of unreferenced events are retained
         let sum: usize = self.model.retrievable.iter().map(|id| self.enc.get(id).map(|e| e.as_bytes().len()).unwrap_or(0)).sum();
@@ -1550,13 +1619,8 @@ impl Sim {
         }
         let _ = fs::remove_dir_all(&chk);
         self.last_obs = Some(after);
-        let exp = self.expected();
-        if let Some((k, want, got)) = obs::first_diff(&exp, self.last_obs.as_ref().unwrap()) {
-            let ctx = OpCtx { kind: CtxKind::Restart, event: None, desc: "rebuild".into(), also: &[] };
-            let (clause, props) = self.attribute(k, want, got, &ctx);
-            return Some(self.finding(i, &clause, &props, format!("after rebuild: probe {} shows {} but the model requires {}", shorten_key(k), got, want)));
-        }
-        None
+        let ctx = OpCtx { kind: CtxKind::Restart, event: None, desc: "rebuild".into(), also: &[] };
+        self.model_agrees(i, &ctx)
     }
 
     // ------------------------------------------------------------ crash engine
